@@ -328,7 +328,17 @@ def numberParser (env : LexEnv) (c : Cfg F) (b : LineBuf) (res : List NRe) (st :
       match re.cap m "DECIMAL", capText b re m "DECIMAL" with
       | some (_, de), some dt =>
         match readLiteral (F := F) c.dec c.thou dt with
-        | none => some st
+        | none =>
+          -- a '.' or ',' at the end that makes the literal unreadable is punctuation behind the number ('apr 29, 2020' under
+          -- decimal '.' without a thousands separator)
+          let trimmed := (dt.reverse.dropWhile (fun ch => ch = '.' || ch = ',')).reverse
+          if trimmed.length < dt.length && (re.cap m "NOTATION").isNone then
+            match readLiteral (F := F) c.dec c.thou trimmed, re.cap m "DECIMAL" with
+            | some v, some (ds, _) =>
+              some (onAdded (addSpan b st m.start (ds + trimmed.length) (some (.item (.number v .decimal))) whole) fun st =>
+                st.hl b ds (ds + trimmed.length) "Number")
+            | _, _ => some st
+          else some st
         | some v =>
           let (v, stop) := match re.cap m "NOTATION", capText b re m "NOTATION" with
             | some (_, ne), some nt => (applyNotation v nt, if notationFactor nt ≠ 1 then ne else de)
